@@ -6,6 +6,7 @@ op list is the trace, and replaying a trace needs neither the clients nor the PR
 """
 import hashlib
 import json
+import os
 from collections import Counter
 
 from .rng import Rng, derive
@@ -306,3 +307,47 @@ def replay(prop: Property, universe: dict, cfg: dict, trace: list) -> RunResult:
     finally:
         run.close()
     return _finish_result(res, run, log, prop)
+
+
+# ---------------------------------------------------------------------------------------------------------
+# Process-isolated execution (properties with `isolate_runs = True`)
+# ---------------------------------------------------------------------------------------------------------
+def _iso_entry(payload):
+    """Executed in a grandchild of the zygote, i.e. in a process that never executed a run before: a run cannot
+    see what earlier runs left behind in process-global state, so one seed is one repeatable execution even for a
+    library that (wrongly) keeps such state."""
+    import logging
+    import warnings
+
+    warnings.simplefilter("ignore")
+    logging.disable(logging.CRITICAL)
+    import sys
+
+    sys.stdout = open(os.devnull, "w")
+    from .runner import load_prop
+
+    prop = load_prop(payload["prop"])
+    if payload["kind"] == "generate":
+        return generate_and_run(prop, payload["seed"])
+    return replay(prop, payload["universe"], payload["cfg"], payload["trace"])
+
+
+def _iso_call(payload):
+    from .seams import get_zygote
+
+    res = get_zygote().call("simkit.engine:_iso_entry", payload)
+    if res[0] != "ok":
+        raise HarnessError(f"isolated run failed: {res[1]}: {res[2]}")
+    return res[1]
+
+
+def execute(prop: Property, seed: int) -> RunResult:
+    if getattr(prop, "isolate_runs", False):
+        return _iso_call({"kind": "generate", "prop": prop.id, "seed": int(seed)})
+    return generate_and_run(prop, seed)
+
+
+def execute_replay(prop: Property, universe: dict, cfg: dict, trace: list) -> RunResult:
+    if getattr(prop, "isolate_runs", False):
+        return _iso_call({"kind": "replay", "prop": prop.id, "universe": universe, "cfg": cfg, "trace": trace})
+    return replay(prop, universe, cfg, trace)
